@@ -111,12 +111,15 @@ func (v *env) witnessCases(ws *witnessState) []*nativeCase {
 	nefD, _ := d.NEF.Bytes()
 	mfD, _ := json.Marshal(d.Manifest)
 	v.names[d.Hash] = "probeD"
+	v.mfsMu.Lock()
+	v.mfs[d.Hash] = d.Manifest
+	v.mfsMu.Unlock()
 	add(v.direct(mg, "deploy", "fresh-contract", nefD, mfD))
-	add(v.direct(mg, "deploy", "fresh-contract-with-data", nefD, mfD, 1))
+	add(v.direct(mg, "deploy", "fresh-contract-with-data", nefD, mfD, []any{8, []byte("k-wd"), []any{}}))
 	nefA, _ := A.NEF.Bytes()
 	mfA, _ := json.Marshal(A.Manifest)
 	add(v.viaProbe(mg, "update", "probeA-updates-itself", nefA, mfA))
-	add(v.viaProbe(mg, "update", "probeA-updates-itself-with-data", nefA, mfA, 1))
+	add(v.viaProbe(mg, "update", "probeA-updates-itself-with-data", nefA, mfA, []any{8, []byte("k-wd"), []any{}}))
 	add(v.viaProbe(mg, "destroy", "probeA-destroys-itself"))
 	add(v.direct(mg, "setMinimumDeploymentFee", "committee", 5_0000_0000))
 
